@@ -57,6 +57,29 @@ def fuzz(rng, toks, valid):
         return s
     return s * rng.choice([50, 400]) if rng.random() < 0.5 else rng.choice(toks) * 2000
 
+def value_first_marker(rng):
+    name = rng.choice(["python_version", "python_full_version", "platform_release", "sys_platform", "os_name", "platform_machine", "implementation_name", "extra"])
+    op = rng.choice(["<", "<=", ">", ">=", "==", "===", "!=", "~=", "in", "not in"])
+    lit = rng.choice(["3.8", "3.10.0", "3.9.1"]) if name in ("python_version", "python_full_version", "platform_release") else rng.choice(["linux", "nt", "x86_64", "a"])
+    leaf = f'"{lit}" {op} {name}'
+    r = rng.random()
+    return leaf if r < 0.5 else f'{leaf} and sys_platform == "linux"' if r < 0.75 else f'os_name == "nt" or {leaf}'
+def shallow_sweep():
+    """every key of depth one and two of the valid mappings replaced by every value of another type (and removed): the places where a
+    whole table is expected"""
+    for data in VALID_PYPROJECTS:
+        tops = [(k,) for k in data] + [(k, k2) for k, v in data.items() if isinstance(v, dict) for k2 in v] + \
+               [(k, k2, k3) for k, v in data.items() if isinstance(v, dict) for k2, v2 in v.items() if isinstance(v2, dict) for k3 in v2]
+        for p in tops:
+            for val in (None, 0, 1.5, True, False, "", "x", [], {}, ["a"], {"a": 1}, [[]], "1.0"):
+                d = copy.deepcopy(data); cur = d
+                for k in p[:-1]: cur = cur[k]
+                cur[p[-1]] = val
+                yield d
+            d = copy.deepcopy(data); cur = d
+            for k in p[:-1]: cur = cur[k]
+            del cur[p[-1]]
+            yield d
 def mutate_mapping(rng, data):
     d = copy.deepcopy(data)
     def paths(x, pre=()):
@@ -110,6 +133,8 @@ def run(tier):
         "extra": (xparse.__wrapped__, TOK_G, lambda: rng.choice(["==a", "!=a, !=b", "a || b"])),
         "marker": (parse_marker.__wrapped__, TOK_M, lambda: MI.gen_marker(rng, depth=2, leaves=rng.randint(1, 3))[0]),
         "marker_same_variable": (parse_marker.__wrapped__, TOK_M, lambda: MI.gen_same_var_marker(rng)),
+        # the value on the left of every operator of the grammar, for version and string variables alike
+        "marker_value_first": (parse_marker.__wrapped__, TOK_M, lambda: value_first_marker(rng)),
         "marker_platform_release": (parse_marker.__wrapped__, TOK_M, lambda: MI.gen_release_mixed_marker(rng)),
         "requirement_same_variable": (Requirement, TOK_R, lambda: "foo>=1; " + MI.gen_same_var_marker(rng)),
         "requirement": (Requirement, TOK_R, lambda: rng.choice(["requests>=2.0", "Foo_Bar[extra1]>=1.0,<2; python_version >= \"3.8\"", "x @ https://example.com/a-1.0.tar.gz", "y @ git+https://github.com/x/y.git@main#subdirectory=sub"])),
@@ -118,7 +143,7 @@ def run(tier):
     mreq, midx = [], []
     for kind, (f, toks, valid) in gens.items():
         for _ in range(n // len(gens)):
-            s = valid() if (kind.endswith("_same_variable") or kind in ("marker_platform_release", "constraint_local_neighbour")) and rng.random() < 0.8 else fuzz(rng, toks, valid)
+            s = valid() if (kind.endswith("_same_variable") or kind in ("marker_platform_release", "constraint_local_neighbour", "marker_value_first")) and rng.random() < 0.8 else fuzz(rng, toks, valid)
             o = outcome(f, s)
             R.case(dict(parser=kind, input=s[:300]), nontrivial=True); R.count(f"{kind}_{o[0]}" + ("_" + o[1] if o[0] == "err" else ""))
             case = dict(parser=kind, input=s)
@@ -158,9 +183,10 @@ def run(tier):
             if kind == "version": continue
             if m[1] != o[1]: R.disagree(f"{kind} parser: error class", dict(parser=kind, input=s), m[1], o[1])
     # pyproject validation: error lists, never an exception
-    for _ in range(600 if tier == "quick" else 15000):
-        data = mutate_mapping(rng, rng.choice(VALID_PYPROJECTS))
-        R.count("validate_cases")
+    sweep = list(shallow_sweep())
+    for it in range((600 if tier == "quick" else 15000) + len(sweep)):
+        data = sweep[it] if it < len(sweep) else mutate_mapping(rng, rng.choice(VALID_PYPROJECTS))
+        R.count("validate_cases" if it >= len(sweep) else "validate_shallow_sweep_cases")
         for strict in (False, True):
             try:
                 r = common.with_timeout(5, lambda: Factory.validate(copy.deepcopy(data), strict=strict))
